@@ -12,6 +12,7 @@ package db
 // Oracle: a history checker over the acknowledgements (see vfC05World.finalCheck).
 
 import (
+	"context"
 	"errors"
 	"fmt"
 	"net/http"
@@ -176,7 +177,15 @@ type vfC05Rej struct {
 	rosmarRace      bool   // rosmar's update loop gave up on a tombstone race the gocb loop retries (see assumptions)
 }
 
+// vfC05Node is one gateway node's handle on the shared bucket.
+type vfC05Node struct {
+	ctx  context.Context
+	dbc  *DatabaseContext
+	coll *DatabaseCollectionWithUser
+}
+
 type vfC05World struct {
+	nodes []*vfC05Node // nodes[0] is env's database; a second node shares the bucket (two-node dimension)
 	env   *vfEnv
 	w     *vs.Bucket
 	allow bool
@@ -242,9 +251,10 @@ func vfC05Digest(rev string) string {
 // exec runs one operation to completion on the calling goroutine. ctx carries the fault-store marker
 // when the operation is instrumented.
 func (w *vfC05World) exec(o *vfC05Op, depth int) {
-	ctx := w.env.Ctx
+	node := w.nodes[o.client%len(w.nodes)]
+	ctx := node.ctx
 	if o.instrumented {
-		ctx = vs.MarkAs(w.env.Ctx, o.label())
+		ctx = vs.MarkAs(node.ctx, o.label())
 	}
 	if depth == 2 {
 		w.mu.Lock()
@@ -279,7 +289,7 @@ func (w *vfC05World) exec(o *vfC05Op, depth int) {
 	}
 	switch kind {
 	case "read":
-		doc, err := w.env.Coll.GetDocument(w.env.Ctx, docID, DocUnmarshalAll)
+		doc, err := node.coll.GetDocument(node.ctx, docID, DocUnmarshalAll)
 		if err != nil {
 			if vfC05NotFound(err) {
 				w.know[o.client][o.doc] = vfC05Known{}
@@ -310,7 +320,7 @@ func (w *vfC05World) exec(o *vfC05Op, depth int) {
 		if k.known {
 			body[BodyRev] = k.rev
 		}
-		rev, doc, err := w.env.Coll.Put(ctx, docID, body)
+		rev, doc, err := node.coll.Put(ctx, docID, body)
 		w.outcome(o, kind, k, "", rev, doc, err)
 	default: // push, pushnc, pushdel
 		body := Body{"v": o.id}
@@ -324,7 +334,7 @@ func (w *vfC05World) exec(o *vfC05Op, depth int) {
 		newRev := fmt.Sprintf("%d-%s%031x", vfC05Gen1(k.rev)+1, c, o.id+1)
 		// the client names its parent; the rest of the ancestry is not needed to locate the branch point
 		hist := []string{newRev, k.rev}
-		doc, rev, err := w.env.Coll.PutExistingRevWithBody(ctx, docID, body, hist, kind == "pushnc", ExistingVersionWithUpdateToHLV)
+		doc, rev, err := node.coll.PutExistingRevWithBody(ctx, docID, body, hist, kind == "pushnc", ExistingVersionWithUpdateToHLV)
 		if err == nil && doc == nil {
 			// "no new revisions to add": cannot happen with unique digests
 			w.mu.Lock()
@@ -627,7 +637,24 @@ func (w *vfC05World) finalCheck(ordered bool) error {
 		}
 	}
 	// after quiescence the changes feed announces each document's final revision at its final sequence
-	if err := w.env.WaitCache(); err != nil {
+	if len(w.nodes) > 1 {
+		// with real batching each node holds reserved numbers; give them back now, as each node's idle
+		// timer (releaseSequenceMonitor) would after 1.5 s without a reservation
+		for _, n := range w.nodes {
+			n.dbc.sequences.releaseUnusedSequences(n.ctx)
+		}
+	}
+	if len(w.nodes) > 1 {
+		// env.WaitCache waits for the node's own last allocation; with two nodes the bucket's counter is
+		// the high-water mark of what has been handed out
+		counter, err := w.env.DBC.sequences.getSequence(w.env.Ctx)
+		if err != nil {
+			return kit.InconclusiveErr{Msg: "reading the sequence counter: " + err.Error()}
+		}
+		if err := w.env.WaitSeq(counter); err != nil {
+			return err
+		}
+	} else if err := w.env.WaitCache(); err != nil {
 		return err
 	}
 	rows, err := vfChanges(w.env.Ctx, w.env.Coll, nil, ChangesOptions{})
@@ -653,7 +680,11 @@ func (w *vfC05World) finalCheck(ordered bool) error {
 		}
 		_ = d
 		if len(mine) != 1 {
-			return fmt.Errorf("%s: since-0 changes feed has %d rows for the document, want 1", docID, len(mine))
+			var all []string
+			for _, r := range rows {
+				all = append(all, fmt.Sprintf("%s@%s", r.ID, r.Seq.String()))
+			}
+			return fmt.Errorf("%s: since-0 changes feed has %d rows for the document, want 1 (all rows: %v)", docID, len(mine), all)
 		}
 		row := mine[0]
 		if row.Seq.Seq != doc.Sequence {
@@ -695,8 +726,50 @@ func vfC05Open(t *testing.T, allow bool, wrap bool) (*vfEnv, *vs.Bucket, error) 
 	return env, w, err
 }
 
+// vfC05OpenSecondNode opens another DatabaseContext with the same name on the same (wrapped) bucket, as a
+// second gateway node of the cluster would (the REST tests do the same through NoCloseClone).
+func vfC05OpenSecondNode(t *testing.T, env *vfEnv, w *vs.Bucket, allow bool) (n *vfC05Node, err error) {
+	defer func() {
+		if p := recover(); p != nil {
+			err = fmt.Errorf("panic while opening the second node: %v", p)
+		}
+	}()
+	opts := vfProductOptions()
+	AddOptionsFromEnvironmentVariables(&opts)
+	opts.Scopes = GetScopesOptions(t, env.Bucket, 1)
+	opts.AllowConflicts = base.Ptr(allow)
+	ctx := base.TestCtx(t)
+	dbc, err := NewDatabaseContext(ctx, env.DBC.Name, base.NoCloseClone(w), false, opts)
+	if err != nil {
+		return nil, err
+	}
+	ctx = dbc.AddDatabaseLogContext(ctx)
+	if err := dbc.StartOnlineProcesses(ctx); err != nil {
+		dbc.Close(ctx)
+		return nil, err
+	}
+	database, _ := CreateDatabase(dbc)
+	ctx = addDatabaseAndTestUserContext(ctx, database)
+	var dc *DatabaseCollection
+	for _, c := range dbc.CollectionByID {
+		dc = c
+	}
+	if dc == nil || len(dbc.CollectionByID) != 1 {
+		dbc.Close(ctx)
+		return nil, fmt.Errorf("second node: expected one collection, have %d", len(dbc.CollectionByID))
+	}
+	coll := &DatabaseCollectionWithUser{DatabaseCollection: dc}
+	ctx = coll.AddCollectionContext(ctx)
+	if _, err := dc.UpdateSyncFun(ctx, vfDefaultSyncFn); err != nil {
+		dbc.Close(ctx)
+		return nil, err
+	}
+	return &vfC05Node{ctx: ctx, dbc: dbc, coll: coll}, nil
+}
+
 func vfC05NewWorld(env *vfEnv, w *vs.Bucket, allow bool, clients, docs int) *vfC05World {
 	world := &vfC05World{env: env, w: w, allow: allow, attempts: map[string]int{}, resWindow: map[int]int{}}
+	world.nodes = []*vfC05Node{{ctx: env.Ctx, dbc: env.DBC, coll: env.Coll}}
 	for d := 0; d < docs; d++ {
 		world.docs = append(world.docs, fmt.Sprintf("doc%d", d))
 	}
@@ -744,11 +817,24 @@ func vfC05Classes(w *vfC05World, extra ...string) (classes []string, nontrivial 
 func TestVerif_C05_Interleave(t *testing.T) {
 	rec := kit.New("C05", "Interleave")
 	defer rec.Flush()
-	restore := SuspendSequenceBatching()
-	defer restore()
 	rapid.Check(t, func(rt *rapid.T) {
 		g := &vfC05Gen{}
+		// two-node dimension: two gateway nodes on one bucket with REAL sequence batching, the clients
+		// spread over the nodes (client c works through node c%2), one node's allocator pre-advanced
+		twoNode := rapid.IntRange(0, 3).Draw(rt, "twoNode") == 0
+		preNode, preAdvance := 0, 0
+		if twoNode {
+			preNode = rapid.IntRange(0, 1).Draw(rt, "preAdvanceNode")
+			preAdvance = rapid.IntRange(0, 7).Draw(rt, "preAdvance")
+		} else {
+			restore := SuspendSequenceBatching()
+			defer restore()
+		}
 		g.allow = rapid.IntRange(0, 3).Draw(rt, "allowConflicts") == 0
+		if twoNode {
+			// a retried write stays legal after a concurrent write mostly when conflicts are allowed
+			g.allow = rapid.IntRange(0, 3).Draw(rt, "allowConflicts2") != 0
+		}
 		g.clients = rapid.IntRange(2, 4).Draw(rt, "clients")
 		g.docs = rapid.IntRange(1, 2).Draw(rt, "docs")
 		seeded := rapid.IntRange(0, 3).Draw(rt, "seeded") != 0
@@ -758,6 +844,9 @@ func TestVerif_C05_Interleave(t *testing.T) {
 			planParts = append(planParts, o.render())
 		}
 		render := fmt.Sprintf("allowConflicts=%v clients=%d docs=%d seeded=%v: %s", g.allow, g.clients, g.docs, seeded, strings.Join(planParts, "; "))
+		if twoNode {
+			render = fmt.Sprintf("twoNodes(batching,node%d pre-advanced by %d) ", preNode, preAdvance) + render
+		}
 
 		env, w, err := vfC05Open(t, g.allow, true)
 		if err != nil {
@@ -768,6 +857,30 @@ func TestVerif_C05_Interleave(t *testing.T) {
 		defer env.Close()
 		world := vfC05NewWorld(env, w, g.allow, g.clients, g.docs)
 		world.avoid = kit.Known("C05", vfC05SigResurrect)
+		if twoNode {
+			n2, err := vfC05OpenSecondNode(t, env, w, g.allow)
+			if err != nil {
+				rec.Inconclusive()
+				kit.InconclusiveLine("C05", "cannot open the second node: %v", err)
+				rt.Skip("no second node")
+			}
+			defer n2.dbc.Close(n2.ctx)
+			world.nodes = append(world.nodes, n2)
+			// pre-advance one node's allocator: it reserves (growing) batches and ends up holding reserved
+			// numbers below what the other node will be handed next; the numbers taken here are given back
+			pn := world.nodes[preNode]
+			for i := 0; i < preAdvance; i++ {
+				seq, err := pn.dbc.sequences.nextSequence(pn.ctx)
+				if err == nil {
+					err = pn.dbc.sequences.releaseSequence(pn.ctx, seq)
+				}
+				if err != nil {
+					rec.Inconclusive()
+					kit.InconclusiveLine("C05", "pre-advancing the allocator failed: %v", err)
+					rt.Skip("allocator")
+				}
+			}
+		}
 		fail := func(format string, args ...any) {
 			kit.Violation(rt, "C05", "Interleave", render, "%s\nexecution: %s", fmt.Sprintf(format, args...), world.history())
 		}
@@ -810,6 +923,19 @@ func TestVerif_C05_Interleave(t *testing.T) {
 			mode = "mode=conflicts-allowed"
 		}
 		classes, nontrivial := vfC05Classes(world, mode, fmt.Sprintf("clients=%d", g.clients))
+		if twoNode {
+			classes = append(classes, "two-nodes-real-batching")
+			lower := false // a node was handed a number below the document's current sequence (re-check path)
+			for _, a := range world.acks {
+				for _, u := range a.unused {
+					_ = u
+					lower = true
+				}
+			}
+			if lower {
+				classes = append(classes, "two-nodes:acknowledged-write-set-aside-a-sequence")
+			}
+		}
 		for i := 0; i < world.excluded; i++ {
 			rec.Excluded(vfC05SigResurrect)
 		}
